@@ -21,6 +21,13 @@ Upd == /\ Rec[l].ev = "upd"
                  \cup (IF total' # Rec[l].tot THEN {"bytesHashed"} ELSE {})
                  \cup (IF blocks' # Rec[l].blk THEN {"chunks-processed"} ELSE {})
 
+\* a token written through updateTag / updateString: the driver logs its kind, the number of characters and their width
+Tok == /\ Rec[l].ev = "tok"
+       /\ Token(Rec[l].k, Rec[l].c, Rec[l].w)
+       /\ bad' = (IF bufLen' # Rec[l].buf THEN {"bufferLength"} ELSE {})
+                 \cup (IF total' # Rec[l].tot THEN {"bytesHashed"} ELSE {})
+                 \cup (IF blocks' # Rec[l].blk THEN {"chunks-processed"} ELSE {})
+
 Dig == /\ Rec[l].ev = "digest"
        /\ Digest
        /\ bad' = (IF blocks' # Rec[l].blk THEN {"chunks-processed-at-digest"} ELSE {})
@@ -28,7 +35,7 @@ Dig == /\ Rec[l].ev = "digest"
                  \cup (IF ~Rec[l].threwAfter THEN {"write-after-digest-accepted"} ELSE {})
 
 TraceInit == l = 1 /\ bad = {} /\ WInit
-TraceNext == l <= Len(Rec) /\ (New \/ Upd \/ Dig) /\ l' = l + 1
+TraceNext == l <= Len(Rec) /\ (New \/ Upd \/ Tok \/ Dig) /\ l' = l + 1
 TraceSpec == TraceInit /\ [][TraceNext]_tvars
 
 Accepted ==
